@@ -127,7 +127,7 @@ fn exchange(stream: &mut TcpStream, text: &[u8], cuts: &[usize], expect_reply: b
             }
             let _ = stream.flush();
             if cuts.len() < 40 {
-                std::thread::sleep(Duration::from_micros(300));
+                std::thread::sleep(Duration::from_micros(1500));
             }
             start = c;
         }
@@ -295,9 +295,11 @@ pub fn run(args: &Args) {
             )
         };
         let cuts_for = |rng: &mut Prng, len: usize| -> Vec<usize> {
-            match rng.below(5) {
+            match rng.below(7) {
                 0 => vec![],
                 1 => (1..len).collect(), // every byte on its own
+                5 => vec![len - 1 - rng.below(4) as usize], // the last 1..4 bytes in a segment of their own
+                6 => (len - 4..len).collect(),              // each of the last four bytes on its own
                 _ => {
                     let mut c: Vec<usize> = (0..1 + rng.below(4)).map(|_| 1 + rng.below(len as u64 - 1) as usize).collect();
                     c.sort();
